@@ -166,10 +166,12 @@ def run_batches(profile, seed, total, thorough, jobs, digests=False, wall_cap=No
     return viol, stats, samples, len(distinct), len(orders), dig
 
 
-def replay_once(profile, ops, faults, layouts, noise=False, timeout=60):
+def replay_once(profile, ops, faults, layouts, noise=False, timeout=60, ops_a=None, tail=None):
     cmd = [BIN, "replay", "--profile", profile, "--layouts", ",".join(str(x) for x in layouts), "--faults", faults, "--ops", ";".join(ops)]
     if noise:
         cmd.append("--layout-noise")
+    if ops_a is not None:
+        cmd += ["--ops-a", ";".join(ops_a), "--tail", str(tail)]
     try:
         r = subprocess.run(cmd, stdout=subprocess.PIPE, stderr=subprocess.PIPE, timeout=timeout)
     except subprocess.TimeoutExpired:
@@ -202,6 +204,8 @@ def minimise(prop, v, budget_s=120):
     noise = bool(v.get("noise", 0)) or (profile == "C09" and v.get("exec", 0) % 2 == 1)
     kind, cause = v["kind"], v["cause"]
     t0 = time.time()
+    if v.get("ops_a"):
+        return None  # a pair of routes to one ledger: deleting calls would change the ledger
 
     def fails(o, f, l):
         if time.time() - t0 > budget_s:
@@ -296,6 +300,7 @@ def write_replay(prop, v, mini):
         "property": prop, "profile": v["profile"], "engine": "sim", "kind": v["kind"], "cause": v["cause"],
         "seed": v["seed"], "run": v["run"], "exec": v.get("exec", 0), "layouts": layouts, "layout_noise": noise,
         "calls": ops, "faults": faults, "minimised": bool(mini), "original_calls": len(parse_ops(v["ops"])),
+        "calls_a": parse_ops(v["ops_a"]) if v.get("ops_a") else None, "tail": v.get("tail"),
         "expect": {"kind": final.get("kind"), "cause": final.get("cause"), "msg": final.get("msg"), "props": final.get("props")},
     }
     with open(path, "w") as f:
@@ -310,7 +315,7 @@ def do_replay_file(path, quiet=False):
     if eng != "sim":
         import engines
         return engines.replay(rec, path, quiet)
-    j = replay_once(rec["profile"], rec["calls"], rec.get("faults", ""), rec["layouts"], rec.get("layout_noise", False))
+    j = replay_once(rec["profile"], rec["calls"], rec.get("faults", ""), rec["layouts"], rec.get("layout_noise", False), ops_a=rec.get("calls_a"), tail=rec.get("tail"))
     prop = rec["property"]
     if j.get("type") == "violation" and prop in j.get("props", []):
         if not quiet:
